@@ -308,9 +308,15 @@ class Tensor:
     def __copy__(self) -> Self:
         return self.copy()
 
+    def _with_array(self, array: np.ndarray) -> Tensor:
+        # keep the index types of this tensor: free indices stay in front, also if broadcasting added axes
+        n = self.free_indices
+        covariant = [i - n for i in self._covariant_indices]
+        return Tensor(array, covariant=covariant, tensor_rank=self.rank - n, copy=False)
+
     def __mul__(self, other: Tensor | npt.ArrayLike) -> Tensor:
         if is_numerical_scalar(other):
-            return Tensor(self.array * other, covariant=self._covariant_indices, copy=False)  # type: ignore[operator]
+            return self._with_array(self.array * other)  # type: ignore[operator]
         if not isinstance(other, Tensor):
             other = Tensor(other, copy=False)
         return TensorDiagram((other, self)).calculate()
@@ -340,13 +346,13 @@ class Tensor:
 
     def __truediv__(self, other: Tensor | npt.ArrayLike) -> Tensor:
         if is_numerical_scalar(other):
-            return Tensor(self.array / other, covariant=self._covariant_indices, copy=False)  # type: ignore[operator]
+            return self._with_array(self.array / other)  # type: ignore[operator]
         return NotImplemented
 
     def __add__(self, other: Tensor | npt.ArrayLike) -> Tensor:
         if isinstance(other, Tensor):
             other = other.array
-        return Tensor(self.array + other, covariant=self._covariant_indices, copy=False)  # type: ignore[operator]
+        return self._with_array(self.array + other)  # type: ignore[operator]
 
     def __radd__(self, other: Tensor | npt.ArrayLike) -> Tensor:
         return self + other
@@ -354,7 +360,7 @@ class Tensor:
     def __sub__(self, other: Tensor | npt.ArrayLike) -> Tensor:
         if isinstance(other, Tensor):
             other = other.array
-        return Tensor(self.array - other, covariant=self._covariant_indices, copy=False)  # type: ignore[operator]
+        return self._with_array(self.array - other)  # type: ignore[operator]
 
     def __rsub__(self, other: Tensor | npt.ArrayLike) -> Tensor:
         return -self + other
